@@ -108,7 +108,7 @@ struct KrylovObserver : CheckpointObserver
     bool in_solver = true;    // checkpoints come from a solver run: factorize/restart checkpoints are at full dimension
     long expected_k = -1;     // advertised dimension expected at the next checkpoint of any kind (-1: unknown)
     long expect_kind[CK_COUNT] = {-1, -1, -1, -1, -1};  // ... per checkpoint kind (direct drivers)
-    long max_restarts = 20;   // general family: no verdict beyond this many compressions since init (KF-arnoldi-restart-drift)
+    long max_restarts = 15;   // general family: no verdict beyond this many compressions since init (KF-arnoldi-restart-drift)
     bool skip_after_expand = false;  // direct Arnoldi driver (arbitrary shifts): no verdict after a breakdown restart
     bool general = false;     // Arnoldi (general) family: no verdict in the known-finding regimes (many restarts, breakdown)
     long compress_since_init = 0, expands_since_init = 0, skipped_known_regime = 0;
